@@ -155,6 +155,33 @@ def cmd_compile(gp, seed, n, outdir):
         src, surf = enum_prog("NAME", vs)
         live = cnt - skipn
         add(src, "accepts", surf, "> 256 variants" if live > 256 else None)
+    # valid definitions using generics, where-clauses and the bound / crate attributes: each must compile
+    D = "#[derive(parity_scale_codec::Encode, parity_scale_codec::Decode)]\n"
+    add(D + "pub struct NAME<A, B: Default> where A: Clone { a: A, #[codec(skip)] b: B, #[codec(compact)] c: u64 }\n"
+        "pub fn use_it() -> Vec<u8> { parity_scale_codec::Encode::encode(&NAME::<u8, crate::NotCodec> { a: 1, b: Default::default(), c: 2 }) }\n",
+        "accepts", "struct 3 p u32 s u32 c u32", None)
+    add(D + "pub enum NAME<A, S> { #[codec(index = 3)] X(A), Y { #[codec(compact)] v: u32, #[codec(skip)] s: S }, #[codec(skip)] Z(S) }\n"
+        "pub fn use_it() -> Vec<u8> { parity_scale_codec::Encode::encode(&NAME::<u8, crate::NotCodec>::X(1)) }\n",
+        "accepts", "enum 3 0 3 - 1 p u32 0 - - 2 c u32 s u32 1 - - 1 p u32", None)
+    add(D + "#[codec(encode_bound(N: parity_scale_codec::Encode, P: Default))]\n#[codec(decode_bound(N: parity_scale_codec::Decode, P: Default))]\n"
+        "pub struct NAME<P, N> { hello: core::marker::PhantomData<P>, val: N }\n"
+        "pub fn use_it() -> Vec<u8> { parity_scale_codec::Encode::encode(&NAME::<crate::NotCodec, u32> { hello: Default::default(), val: 3 }) }\n",
+        "accepts", "struct 2 p u32 p u32", None)
+    add(D + "#[codec(encode_bound())]\n#[codec(decode_bound())]\npub struct NAME<P> { _p: core::marker::PhantomData<P> }\n"
+        "pub fn use_it() -> Vec<u8> { parity_scale_codec::Encode::encode(&NAME::<crate::NotCodec> { _p: Default::default() }) }\n",
+        "accepts", "struct 1 p u32", None)
+    add(D + "#[codec(dumb_trait_bound)]\npub struct NAME<N> { data: Vec<(N, u8)> }\n"
+        "pub fn use_it() -> Vec<u8> { parity_scale_codec::Encode::encode(&NAME::<u32> { data: vec![] }) }\n",
+        "accepts", "struct 1 p u32", None)
+    add(D + "#[codec(crate = parity_scale_codec)]\npub struct NAME(u8, #[codec(compact)] u32);\n", "accepts", "struct 2 p u32 c u32", None)
+    add(D + "#[codec(crate = crate::reexport)]\npub enum NAME { A, #[codec(index = 200)] B(u8) }\n", "accepts", "enum 2 0 - - 0 0 200 - 1 p u32", None)
+    add(D + "pub struct NAME<'a, T: 'a + Clone>(&'a str, core::marker::PhantomData<&'a T>, #[codec(skip)] Option<T>);\n", "accepts", "struct 3 p u32 p u32 s u32", None) if False else None
+    add(D + "pub struct NAME<const N: usize> { a: [u8; N], #[codec(compact)] b: u128 }\n"
+        "pub fn use_it() -> Vec<u8> { parity_scale_codec::Encode::encode(&NAME::<3> { a: [1, 2, 3], b: 9 }) }\n",
+        "accepts", "struct 2 p u32 c u32", None)
+    add(D + "#[repr(u8)]\npub enum NAME<P: core::fmt::Debug> where P: Default { A { #[codec(encoded_as = \"<u32 as parity_scale_codec::HasCompact>::Type\")] x: u32, t: P }, B = 77 }\n"
+        "pub fn use_it() -> Vec<u8> { parity_scale_codec::Encode::encode(&NAME::<u8>::B) }\n",
+        "accepts", "enum 2 0 - - 2 a c 4 u32 p u32 0 - 77 0", None)
     # CompactAs shape
     ca = "#[derive(parity_scale_codec::Encode, parity_scale_codec::Decode, parity_scale_codec::CompactAs)]\n"
     add(ca + "pub struct NAME(u32);\n", "acceptsca", "struct 1 p u32", None)
@@ -165,7 +192,7 @@ def cmd_compile(gp, seed, n, outdir):
     add(ca + "pub enum NAME { A(u32) }\n", "acceptsca", "enum 1 0 - - 1 p u32", "CompactAs shape")
 
     os.makedirs(os.path.join(outdir, "src"), exist_ok=True)
-    lib = "#![allow(dead_code, unused)]\n"
+    lib = "#![allow(dead_code, unused)]\n#[derive(Default, Clone, Debug)]\npub struct NotCodec;\npub mod reexport { pub use parity_scale_codec::*; }\n"
     expect = []
     for name, src, kind, surf, fault in progs:
         open(os.path.join(outdir, "src", name + ".rs"), "w").write(src)
